@@ -113,6 +113,31 @@ CHECKS.update({
     ),
 })
 
+CHECKS.update({
+    "C10": (
+        "round-trip property-based testing (save -> load -> compare -> continue -> save chains) + deterministic cross-type loader matrix",
+        "Generated configurations and histories for all five classes are saved and reloaded through the class loaders and countmin.load, with and "
+        "without shared memory; parameters, full state, bookkeeping and queries must be equal, a second copy must merge with the original, and "
+        "original and copy must stay equal under a common continuation (same planted draws). All 6 ordered cross-type loads must be rejected.",
+        "Trusts equality of the documented public attributes as the meaning of 'reproduces the sketch'.",
+        "7/C10",
+    ),
+    "C12": (
+        "differential property-based testing: compound call vs per-item loop vs loop of unit adds on three equal sketches",
+        "For every class, generated compound calls (list, dict with multiplicities, add with multiplicity, ngram, ngram list) are compared for full "
+        "state equality with the documented expansions, after a common pre-history and again after a common continuation; log types run under an identical planted draw batch.",
+        "Trusts the expansions stated in the property (windows of length n, or the key itself when len <= n).",
+        "7/C12",
+    ),
+    "C15": (
+        "enumeration of one-parameter-difference configuration families (all ordered pairs) + Hypothesis-drawn configuration pairs",
+        "Every ordered pair of configurations in each family is merged with both operands non-empty; incompatible pairs must raise TypeError and leave "
+        "both operands bit-for-bit unchanged, compatible ones (incl. different phi, CountMin()-built, loaded) must merge.",
+        "Trusts the list of merge parameters given in the property.",
+        "7/C15",
+    ),
+})
+
 NOT_YET = {}
 
 
